@@ -13,6 +13,7 @@ package main
 
 import (
 	"bufio"
+	"bytes"
 	"encoding/hex"
 	"encoding/json"
 	"flag"
@@ -20,6 +21,7 @@ import (
 	"io"
 	"log"
 	"os"
+	"os/exec"
 	"sort"
 	"strings"
 
@@ -393,7 +395,7 @@ func auMode(r *rng.R, n int) {
 func main() {
 	tier := flag.String("tier", "quick", "quick|thorough")
 	seed := flag.Uint64("seed", 1, "seed")
-	mode := flag.String("mode", "au,mp,tr,ws,wl", "which modes")
+	mode := flag.String("mode", "au,mp,tr,ws,wl,hs", "which modes")
 	corpus := flag.String("corpus", "", "directory of directed cases (corpus/C10)")
 	flag.Parse()
 	defer out.Flush()
@@ -432,6 +434,29 @@ func main() {
 				cf = *corpus + "/wl.txt"
 			}
 			wlMode(rr, 60*scale, cf)
+		case "hs": // in a child process: a panic outside every recover must not take the other modes' rows with it
+			cf := ""
+			if *corpus != "" {
+				cf = *corpus + "/hs.txt"
+			}
+			out.Flush()
+			cmd := exec.Command(os.Args[0], "-mode", "hs-child", "-tier", *tier, "-seed", fmt.Sprint(rr.Next()), "-corpus", cf)
+			var so, se bytes.Buffer
+			cmd.Stdout, cmd.Stderr = &so, &se
+			err := cmd.Run()
+			b := so.Bytes()
+			if i := bytes.LastIndexByte(b, '\n'); i >= 0 {
+				out.Write(b[:i+1])
+			}
+			if err != nil {
+				t := se.String()
+				if len(t) > 1500 {
+					t = t[:1500]
+				}
+				fmt.Fprintf(out, "hc\tcrash\t%s\t%s\n", hx(err.Error()), hx(t))
+			}
+		case "hs-child":
+			hsMode(r, 150*scale, sub("hs"), *corpus, *tier == "thorough")
 		}
 		out.Flush()
 	}
